@@ -115,8 +115,7 @@ def replay_findings(mod, prop, findings):
         try:
             res = mod.replay(H.case_from_repr(f['witness']))
             syms = f['symptom'] if isinstance(f['symptom'], list) else [f['symptom']]
-            if any(w['symptom'] in syms and set(f.get('zone', [])) <= set(w['features'])
-                   for w in res.witnesses):
+            if any(H.match_finding(prop, w, [f]) for w in res.witnesses):
                 live.append(f)
         except Exception:
             sys.stderr.write('finding %s: replay raised\n%s\n' % (f.get('id'), H.fmt_exc()))
